@@ -1,0 +1,44 @@
+//go:build verif
+
+package proc
+
+import (
+	"github.com/polynetwork/poly/common"
+	tx "github.com/polynetwork/poly/core/types"
+)
+
+// Accessors for the verification harness in /verif (sender admission, C36), compiled only with the build tag `verif`.
+
+// VerifIsValidSender is TxActor.isValidSender.
+func VerifIsValidSender(txn *tx.Transaction) error { return (&TxActor{}).isValidSender(txn) }
+
+// VerifRefreshPermitted runs updatePermittedAddrMap as if the cache had expired.
+func VerifRefreshPermitted() error {
+	lock.Lock()
+	lastTime = 0
+	lock.Unlock()
+	return updatePermittedAddrMap()
+}
+
+// VerifResetPermitted empties the permitted-sender cache (a node restart).
+func VerifResetPermitted() {
+	lock.Lock()
+	defer lock.Unlock()
+	for k := range permittedAddrMap {
+		delete(permittedAddrMap, k)
+	}
+	lastTime = 0
+}
+
+// VerifPermittedAddrs lists the permitted-sender cache.
+func VerifPermittedAddrs() []common.Address {
+	lock.RLock()
+	defer lock.RUnlock()
+	res := make([]common.Address, 0, len(permittedAddrMap))
+	for k, v := range permittedAddrMap {
+		if v {
+			res = append(res, k)
+		}
+	}
+	return res
+}
